@@ -7,10 +7,11 @@ rows=[]
 for sid in sorted(os.listdir(root)):
     d=f'{root}/{sid}'
     if not os.path.exists(f'{d}/patch.diff'): continue
+    if len(sys.argv)>1 and not any(x in sid for x in sys.argv[1:]): continue  # optional filter: substrings of seed ids
     evdir='/tmp/vr_mut/evidence'
     for f in (os.listdir(evdir) if os.path.isdir(evdir) else []):
         os.remove(f'{evdir}/{f}')  # never reuse the previous seed's evidence
-    t=subprocess.run(['/verif/tools/tryseed.sh',d,'all'],capture_output=True,text=True)
+    t=subprocess.run(['/verif/tools/tryseed.sh',d,'all'],capture_output=True,text=True,errors='replace')
     if not os.path.isdir(evdir) or len(os.listdir(evdir))<20 or 'panic:' in t.stdout or 'fatal error' in t.stdout+t.stderr:
         print('ERROR: checker did not complete on',sid,(t.stdout+t.stderr)[-300:]); sys.exit(2)
     viol=[l for l in t.stdout.splitlines() if re.match(r'^\S*: \[',l)]
